@@ -28,7 +28,7 @@ pub fn guard<T>(f: impl FnOnce() -> T) -> Result<T, String> {
 /// "file.rs:line" part of a captured panic, with the directory stripped (stable across checkouts)
 pub fn panic_site(msg: &str) -> String { msg.rsplit(" @ ").next().unwrap_or("").rsplit('/').next().unwrap_or("").split(':').next().unwrap_or("").to_string() }
 
-pub struct Sweep { pub name: String, pub cases: AtomicU64, pub bound: String, pub exhaustive: AtomicBool, pub cap: Mutex<Option<String>> }
+pub struct Sweep { pub name: String, pub cases: AtomicU64, pub bound: String, pub exhaustive: AtomicBool, pub cap: Mutex<Option<String>>, pub wall_ms: AtomicU64 }
 
 const MAX_THREADS: usize = 64;
 pub struct Ctx {
@@ -126,7 +126,8 @@ impl Ctx {
     /// Deterministic parallel enumeration of case indices 0..n of the sweep `name`. `f(i)` must derive the
     /// case from `i` alone, so that `--only name:i` replays it in isolation.
     pub fn sweep(&self, name: &str, bound: &str, n: u64, f: impl Fn(u64) + Sync) {
-        let sw = std::sync::Arc::new(Sweep { name: name.into(), cases: AtomicU64::new(0), bound: bound.into(), exhaustive: AtomicBool::new(true), cap: Mutex::new(None) });
+        let sw = std::sync::Arc::new(Sweep { name: name.into(), cases: AtomicU64::new(0), bound: bound.into(), exhaustive: AtomicBool::new(true), cap: Mutex::new(None), wall_ms: AtomicU64::new(0) });
+        let t_sweep = Instant::now();
         let sweep_id = { let mut g = self.sweeps.lock().unwrap(); g.push(sw.clone()); g.len() };
         if let Some((only_name, idx)) = &self.only {
             if only_name == name && *idx < n { self.run_one(&sw, sweep_id, 0, *idx, &f); }
@@ -167,6 +168,7 @@ impl Ctx {
             while next.load(Ordering::Relaxed) < n || (0..self.threads).any(|t| self.slots[t].0.load(Ordering::Relaxed) != 0) { std::thread::sleep(Duration::from_millis(2)); }
             done.store(true, Ordering::Relaxed);
         });
+        sw.wall_ms.store(t_sweep.elapsed().as_millis() as u64, Ordering::Relaxed);
     }
     fn run_one(&self, sw: &Sweep, sweep_id: usize, t: usize, i: u64, f: &(impl Fn(u64) + Sync)) {
         self.slots[t].1.store(i, Ordering::Relaxed); self.slots[t].2.store(sweep_id, Ordering::Relaxed);
@@ -178,13 +180,13 @@ impl Ctx {
     }
     /// records a sweep that was run by another engine (explicit-state search, loom)
     pub fn register_sweep(&self, name: &str, bound: &str, cases: u64, exhaustive: bool) {
-        self.sweeps.lock().unwrap().push(std::sync::Arc::new(Sweep { name: name.into(), cases: AtomicU64::new(cases), bound: bound.into(), exhaustive: AtomicBool::new(exhaustive), cap: Mutex::new(None) }));
+        self.sweeps.lock().unwrap().push(std::sync::Arc::new(Sweep { name: name.into(), cases: AtomicU64::new(cases), bound: bound.into(), exhaustive: AtomicBool::new(exhaustive), cap: Mutex::new(None), wall_ms: AtomicU64::new(0) }));
     }
     pub fn cap_hit(&self, sweep: &str, what: &str) {
         for s in self.sweeps.lock().unwrap().iter() { if s.name == sweep { s.exhaustive.store(false, Ordering::Relaxed); *s.cap.lock().unwrap() = Some(what.into()); } }
     }
     pub fn part_json(&self) -> Value {
-        let sweeps: Vec<Value> = self.sweeps.lock().unwrap().iter().map(|s| json!({"name": s.name, "cases": s.cases.load(Ordering::Relaxed), "bound": s.bound, "exhaustive": s.exhaustive.load(Ordering::Relaxed), "cap": *s.cap.lock().unwrap()})).collect();
+        let sweeps: Vec<Value> = self.sweeps.lock().unwrap().iter().map(|s| json!({"name": s.name, "cases": s.cases.load(Ordering::Relaxed), "bound": s.bound, "exhaustive": s.exhaustive.load(Ordering::Relaxed), "cap": *s.cap.lock().unwrap(), "wall_ms": s.wall_ms.load(Ordering::Relaxed)})).collect();
         let samples: Vec<Value> = self.samples.lock().unwrap().iter().flat_map(|(k, v)| v.iter().map(move |x| json!({"sweep": k, "case": x}))).collect();
         json!({
             "property": self.property, "layer": self.layer, "tier": if self.quick() { "quick" } else { "thorough" }, "seed": self.seed, "threads": self.threads,
